@@ -41,6 +41,14 @@ def _case(draw):
     else:
         scan = draw(progs.scans(table))
     prog = draw(progs.programs(table, kinds=("b", "b", "b", "b", "assign", "when", "se", "every", "first")))
+    if draw(st.integers(0, 9)) == 4:
+        # whole-row existence tests: every header has data and the row is as long as the header row
+        # (rows with a spare or a missing cell are what makes them interesting)
+        w = draw(st.sampled_from([["f", "all", [], []], ["f", "missing", [], []], ["f", "not", [], [["f", "all", [], []]]]]))
+        prog["comps"].insert(draw(st.integers(0, len(prog["comps"]))), w)
+        for r in table["records"][progs.hdr_pos(table) + 1:]:
+            if r and len(r) == len(table["cols"]) and draw(st.integers(0, 3)) == 0:
+                r.append(draw(st.sampled_from(progs.WORDS + progs.INTS)))
     via = draw(st.sampled_from(["collect", "collect", "next"]))
     return {"table": table, "scan": scan, "prog": prog, "via": via}
 
